@@ -8,7 +8,8 @@ document-property value alphabet, and the single-deviation byte mutations.
 `body` is a list of feature names (a feature the format's writer cannot express is skipped), `meta` maps an ADM
 property key (title / author / subject / keywords / description) to a list of value features (see SEP): the value
 written is  tok0 + SEP[f1] + tok1 + SEP[f2] + tok2 ...  with fresh class-Z tokens, so it never has leading or trailing
-white space and every feature sits between two tokens.
+white space and every feature sits between two tokens - unless the list holds one position modifier (POS: pstart / pend /
+palone), which puts the feature characters at the start / at the end of the value / makes them the whole value.
 Nothing here shares code with the library.
 """
 from __future__ import annotations
@@ -28,16 +29,33 @@ SEP = {"sp": " ", "sp2": "  ", "amp": "&", "lt": "<", "gt": ">", "quot": '"', "a
 # "Z" of a timestamp must not touch textual properties)
 ENDS = {"endZ": "Z", "endT": "T", "end0": "0", "enddot": "."}
 VALUE_FEATURES = list(SEP) + list(ENDS)
+# POSITION modifiers of a value: the feature characters sit at the START of the value, at its END (the last thing before the
+# closing delimiter of the field), or are the WHOLE value - instead of between two tokens.  Decoders that look ahead / behind
+# (escape + fallback pairs, entity scanning, trimming of brackets and quotes) have their boundary cases there.  White space
+# features are not combined with a position (no leading / trailing white space, see the assumptions).
+POS = ("pstart", "pend", "palone")
+POS_FEATURES = [f for f in SEP if f not in ("sp", "sp2")]
 META_KEYS = ("title", "author", "subject", "keywords", "description")
 UNI_TEXT = " \U0001F600 שלום &<>\"' é "
 UNI_TEXT_CP1252 = " &<>\"' é "
 
 
+def valid_value(feats) -> bool:
+    pos = [f for f in feats if f in POS]
+    return (all(f in VALUE_FEATURES or f in POS for f in feats) and len(pos) <= 1
+            and not (pos and any(f in ("sp", "sp2") for f in feats)))
+
+
 def meta_value(feats, tk: Tokens) -> str:
-    v = tk.new("Z")
-    for f in feats:
-        if f in SEP:
-            v += SEP[f] + tk.new("Z")
+    pos = [f for f in feats if f in POS]
+    seps = "".join(SEP[f] for f in feats if f in SEP)
+    if pos and seps:
+        v = {"pstart": lambda: seps + tk.new("Z"), "pend": lambda: tk.new("Z") + seps, "palone": lambda: seps}[pos[0]]()
+    else:
+        v = tk.new("Z")
+        for f in feats:
+            if f in SEP:
+                v += SEP[f] + tk.new("Z")
     for f in feats:
         if f in ENDS:
             v += ENDS[f]
@@ -86,14 +104,14 @@ FORMATS = ADM_FORMATS + SHEET_FORMATS + HTML_FORMATS + MAIL_FORMATS + ARCHIVE_FO
 
 # body features in canonical order; what a feature means per family is described in build_*
 BODY_ALL = ["text", "uni", "sur", "surl", "h", "hu", "tbl", "tblu", "rag", "img", "imgx", "imge", "ul", "ulu", "a", "au", "types", "att", "u2",
-            "notes", "notesu", "hf", "hfu", "hexesc"]
+            "notes", "notesu", "hf", "hfu", "hexesc", "uhexesc"]
 # position modifiers: the text of heading / table cell / list item / link / notes / header+footer carries the non-BMP / RTL / markup
 # characters of "uni" (a paragraph is only one of the places where text lives; each place has its own decoding path in an
 # extractor).  A modifier brings its own element when the plain feature is absent, and replaces it when both are given.
 UNI_POS = {"hu": "h", "tblu": "tbl", "ulu": "ul", "au": "a", "notesu": "notes", "hfu": "hf"}
-VARIANTS = {"rtf": ["hexesc"]}      # writer variants that change how text (also property values) is encoded
+VARIANTS = {"rtf": ["hexesc", "uhexesc"]}      # writer variants that change how text (also property values) is encoded
 IMG_MODES = ("imgx", "imge")
-RICH_EXTRA = ("sur", "surl", "imgx", "imge", "hexesc") + tuple(UNI_POS)   # not part of the "rich" document (they damage or modify it); each is added to it in a variant of its own
+RICH_EXTRA = ("sur", "surl", "imgx", "imge", "hexesc", "uhexesc") + tuple(UNI_POS)   # not part of the "rich" document (they damage or modify it); each is added to it in a variant of its own
 _PUA = "\ue000"                     # placeholder that is byte-patched into a lone high surrogate (UTF-16LE 3D D8) for "sur"
 
 
@@ -157,7 +175,8 @@ def build_adm(fmt, body, meta, tk):
     notes: speaker notes | hf: page header + footer | sur (rtf, ppt): a paragraph holding a lone high surrogate (RTF: \\u-10179? without
     its partner; PPT: the UTF-16LE code unit 3D D8 patched into the TextCharsAtom) | imgx / imge (docx, pptx, odt, odp, odg): every
     picture reference dangles (part not stored) / is an external link; without "img" they bring their own picture |
-    hexesc (rtf): characters of code page 1252 are written as \\'xx instead of \\uN? (what Word does)."""
+    hexesc (rtf): characters of code page 1252 are written as \\'xx instead of \\uN? | uhexesc (rtf): they are written as
+    \\uN\\'xx - the Unicode escape followed by its one-byte fallback as a hex escape (what Word does)."""
     writer, caps = _adm_writer(fmt)
     props, used = {}, []
     m = _meta(fmt, meta, tk, props)
@@ -240,6 +259,8 @@ def build_adm(fmt, body, meta, tk):
             data = _patch_surrogate(data, sur[0], sur[1], sur[2])
     elif fmt == "rtf" and "hexesc" in body:
         data = writer(doc, images, {"escape": "hex"}); used.append("hexesc")
+    elif fmt == "rtf" and "uhexesc" in body:
+        data = writer(doc, images, {"escape": "uhex"}); used.append("uhexesc")
     elif mode and fmt in ("docx", "pptx"):
         data = writer(doc, images, {"image_ref": "missing" if mode == "imgx" else "external"})
     elif mode:
